@@ -8,7 +8,7 @@ from x2p import impl as I
 HEADER = ('Require Import X2P.Base.Prelude X2P.Corr.C05.\n')
 TARGETS = ['theories/Props/C05.vo', 'theories/Corr/C05.vo']
 
-BASE = ['=1+2', '=A1*B2-3', '=(A1+B2)*3', '=SUM(A1:B2,3)', '=SUM(A1:A3;B1)', '=IF(A1>1,2,3)', '=IF(A1>1,"x")', '=ROUND(A1/3,2)', '=ROUNDUP(A1,1)',
+BASE = ['=1+2', '=A1*B2-3', '=(A1+B2)*3', '=B2%%+7', '=A1%%-B2/4', '=(A1+B2)%+3', '=A1%*2+B2', '=5%%+A1&B2', '=A1<B2+3', '=2*(A1-4)/B2&7', '=SUM(A1:B2,3)', '=SUM(A1:A3;B1)', '=IF(A1>1,2,3)', '=IF(A1>1,"x")', '=ROUND(A1/3,2)', '=ROUNDUP(A1,1)',
         '=ROUNDDOWN(2.5)', '=VLOOKUP(3,A1:C5,2,FALSE())', '=VLOOKUP(3,A1:C5,2)', '=MATCH(3,A1:A5,0)', '=INDEX(A1:C5,2,3)', '=LEFT("abc",2)', '=RIGHT(A1)',
         '=MID(A1,2,3)', '=A1&"x"&B1', '=A1%', '=-A1*2', '=A1<=B1', '=A1<>B1', '=DATE(2020,1,31)', '=DATEDIF(A1,B1,"M")', '=EDATE(A1,1)', '=EOMONTH(A1,-1)',
         '=YEAR(A1)+MONTH(A1)+DAY(A1)', '=MIN(A1:A3)', '=MAX(A1:A3,5)', '=AVERAGE(A1:B2)', '=COUNT(A1:A5)', '=COUNTBLANK(A1:A5)', '=AND(A1>1,B1<2)', '=OR(A1,B1)',
@@ -230,11 +230,47 @@ def pipeline_agrees(f):
     return None
 
 
+def operands_emitted(f):
+    """For an accepted formula made of operands and operators only (no function call, no text): every cell reference and every number of
+    the text must occur in the code emitted for the cell — a translator that accepts the whole text but writes code for a part of it has
+    dropped the rest just the same."""
+    if not re.fullmatch(r'=[A-Z0-9$.%+\-*/&<>=() e]+', f) or re.search(r'[A-Z]\s*\(', f) or 'TRUE' in f or 'FALSE' in f:
+        return None
+    sheets = [('S', {'A1': 1, 'B2': 2, 'H9': f})]
+    try:
+        src, ctx = I.translate(sheets, entry=I.Cell(0, 7, 8))
+    except Exception:  # noqa
+        return None
+    code = ctx._cell_translations['_0_7_8'] + ' ' + ' '.join(str(v) for k, v in getattr(ctx, '_sub_cell_translations', {}).items() if k.startswith('_0_7_8'))
+    for ref in re.findall(r'\$?([A-Z]{1,3})\$?(\d+)', f):
+        c, r = I.a1(ref[0] + ref[1])
+        if "'_0_%d_%d'" % (c, r) not in code:
+            return 'the formula is accepted, but the reference %s%s of its text does not occur in the emitted code %r' % (ref[0], ref[1], code[:160])
+    bare = re.sub(r"'[^']*'", "''", code)
+    have = set()
+    for m in re.findall(r'(?<![\w.])\d+(?:\.\d+)?(?:e[+-]?\d+)?(?![\w.])', bare):
+        try:
+            have.add(float(m))
+        except ValueError:
+            pass
+    nocells = re.sub(r'\$?[A-Z]{1,3}\$?\d+', ' ', f)
+    for m in re.findall(r'(?<![\w.])\d+(?:\.\d+)?(?:e-?\d+)?(?![\w.])', nocells):
+        try:
+            v = float(m)
+        except ValueError:
+            continue
+        if v not in have:
+            return 'the formula is accepted, but the number %s of its text does not occur in the emitted code %r' % (m, code[:160])
+    return None
+
+
 def make_case(rc):
     f = rc['formula']
     term, sig, fail = analyse(f)
     if fail is None and sig[0] != 'foreign':
         fail = pipeline_agrees(f)
+    if fail is None and sig[0] == 'parsed':
+        fail = operands_emitted(f)
     if fail is None and sig[0] == 'parsed':
         fail = lexer_cover(f)
     if fail is None and rc.get('nl_of'):
